@@ -1,5 +1,7 @@
 //! kpharness: runs the real keepass-rs library (path dependency on /repo, features save_kdbx4,_merge,totp)
 //! on generated inputs and writes one JSON case per line: abstract inputs + canonicalised real results.
+mod dump;
+mod history;
 mod rng;
 mod tree;
 
@@ -103,6 +105,7 @@ fn main() {
     };
     match op.as_str() {
         "tree" => tree::run(&mut ctx),
+        "history" => history::run(&mut ctx),
         _ => {
             eprintln!("unknown op {}", op);
             std::process::exit(2);
